@@ -43,7 +43,8 @@ def required_cells(tier):
     return ["same-name-in-2+-dirs", "quote-then-angle-same-name", "angle-then-quote-same-name", "isystem-before-I",
             "beside-includer-and-on-path", "computed-quote", "computed-angle", "reinclude:guard", "reinclude:once",
             "reinclude:plain", "forced-include", "forced-include-macro-tested", "same-name-from-two-dirs",
-            "class:E", "class:R", "resolved-set-compared", "table-compared"]
+            "class:E", "class:R", "resolved-set-compared", "table-compared", "header-dir-outside-root",
+            "outside-header-read", "include-depth>=40", "include-depth>=70"]
 
 
 def enum_cases():
@@ -174,6 +175,8 @@ def check_case(ctx, case, base, cls, extra_cells=()):
             if tu["includes"]:
                 # gcc -H does not list files given with -include; the generator only forces inc/pre.h
                 gset.add(os.path.realpath(forest.abspath(*forest.paths(base), "inc/pre.h")))
+            if any(p.startswith(os.path.realpath(forest.paths(base)[1]) + os.sep) for p in gset):
+                cells.add("outside-header-read")     # its D_ macro is compared in the final macro table below
             if i < len(plat_objs):
                 cset = {os.path.realpath(e[5]) for e in ev.events if e[0] == "inc" and e[1] == plat_objs[i]._cbimon_index and e[5]}
                 cells.add("resolved-set-compared")
@@ -208,6 +211,14 @@ def check_case(ctx, case, base, cls, extra_cells=()):
                         problems.append({"kind": "final-macro-table", "tu": tu["file"], "gcc_only": sorted(gt - ct), "cbi_only": sorted(ct - gt)})
                     if tu["includes"] and "FROM_PRE" in gt:
                         cells.add("forced-include-macro-tested")
+    if any(r.startswith("@out/") for r in case["files"]):
+        cells.add("header-dir-outside-root")
+    for g in per_tu:
+        # gcc -H prints one dot per nesting level
+        depth = max([lvl for lvl, _ in g["includes"]] or [0])
+        for n in (40, 70):
+            if depth >= n:
+                cells.add(f"include-depth>={n}")
     if "same-name-in-2+-dirs" in cells:
         nontriv = True
     nt = {"files": {k: str(v) for k, v in case["files"].items()}, "tus": case["tus"]} if nontriv else None
@@ -285,7 +296,9 @@ def run_shard(ctx):
             check_case(ctx, case, base, "E")
     rng = ctx.rng("random")
     for i in range(b["random"]):
-        case = forest.gen(rng)
+        # 40%: one header directory lies outside the analysis root (its headers are read for their macros);
+        # one case in 16: an include chain 20..120 levels deep
+        case = forest.gen(rng, outside=rng.random() < 0.4, deep=[20, 40, 70, 120][(i // 16) % 4] if i % 16 == 5 else 0)
         if ctx.mine(i):
             check_case(ctx, case, base, "R")
     shutil.rmtree(base, ignore_errors=True)
